@@ -16,7 +16,7 @@ TECHNIQUE = ("runtime ground-truth monitor: harness forward simulator (closed-fo
              "savegrains, and scripts/makemap.py) -> refined UBI/translation/labels/saved h,k,l compared with the generating values")
 LEVEL_TEXT = ("Exploration: 1..5 strained grains (<=5e-3) at |t|<=500um, geometry classes of C01 (all flips, pixel signs, tilts, "
               "wedge, chi, omegasign), omega floated or as observed, starts perturbed by 0.1-0.5 deg and <=50um; exact (noise-free) "
-              "peaks so the optimum is the truth. Every scenario checks the refined state against the truth on the optimiser's own objective (excess <= 0.3 in 1e6<drlv2>), UBI (1e-4 rel), translation (10um), per-peak label = "
+              "peaks so the optimum is the truth. Every scenario checks the refined state against the truth on the optimiser's own objective (excess <= 2 in 1e6<drlv2>), UBI (1e-4 rel), translation (25um per grain; median <= 0.75um, p90 <= 2um over the run), per-peak label = "
               "generator, saved hkl = simulated hkl, saved files = in-memory values to print precision.")
 LEVEL_NOTE = ("Trusts the harness simulator (cross-checked against the C01 model to 2e-15) and the stated optimiser tolerances "
               "(empirical: worst observed 6e-6 / 3.4um / 0.031; thresholds 3-10x above); peak files carry 4 decimals.")
@@ -163,7 +163,8 @@ def one_scenario(run, seed, idx, mods, use_script=False):
         # Nelder-Mead simplex capped at 100 iterations that starts with 0.2um steps and keeps the
         # last *evaluated* point; measured on the unchanged tree over 540 unambiguous grains from
         # starts 50um/0.5deg off: objective excess <= 0.031 (1e6.<drlv2>), translation <= 3.4um,
-        # UBI <= 6e-6 relative.  Thresholds are set ~3-10x above that (DESIGN.md Corrections);
+        # UBI <= 6e-6 relative.  Thorough run (1137 grains): 0.24 / 8.2um / 1.1e-5.  Per-grain caps are set ~3-8x above that
+        # and the run is additionally judged on the median/90th percentile (DESIGN.md Corrections);
         # the worst values of every run are written to the evidence.
         okl = np.array_equal(lab, gid)
         for g in range(ng):
@@ -184,8 +185,11 @@ def one_scenario(run, seed, idx, mods, use_script=False):
             run.setmax("worst_translation_err_um", float(et))
             run.setmax("worst_objective_excess", float(f_ref - f_tru))
             run.count("grains_judged")
-            if not f_ref <= f_tru + 0.3:
-                V("recovered:objective", "grain %d: refined state has gof %.3g, truth %.3g (1e6.<drlv2>), excess > 0.3; "
+            run.extra.setdefault("_terr", []).append(float(et))
+            run.extra.setdefault("_uerr", []).append(float(eu))
+            run.extra.setdefault("_oexc", []).append(float(f_ref - f_tru))
+            if not f_ref <= f_tru + 2.0:
+                V("recovered:objective", "grain %d: refined state has gof %.3g, truth %.3g (1e6.<drlv2>), excess > 2; "
                   "ubi rel err %.3g, translation err %.3g um" % (g, f_ref, f_tru, eu, et), grain=g)
             # saved real-valued hkl of this grain's peaks must be (nearly) the integers they were simulated from
             hr = np.array([new.hr, new.kr, new.lr]).T[mine]
@@ -195,8 +199,8 @@ def one_scenario(run, seed, idx, mods, use_script=False):
                 V("saved:hkl-real", "grain %d: saved hr,kr,lr differ from the simulated integers by %.3g" % (g, dh), grain=g)
             if not eu <= 1e-4:
                 V("recovered:ubi", "grain %d UBI relative error %.3g > 1e-4" % (g, eu), grain=g)
-            if not et <= 10.0:
-                V("recovered:translation", "grain %d translation error %.3g um > 10 (got %r want %r)"
+            if not et <= 25.0:
+                V("recovered:translation", "grain %d translation error %.3g um > 25 (got %r want %r)"
                   % (g, et, list(got.translation), t_t.tolist()), grain=g)
             if mem is not None:
                 gm = mem.grains[(g, flt)]
@@ -225,6 +229,22 @@ def check(run, replay=None):
         one_scenario(run, run.seed, i, mods)
     for i in range(2 if run.tier == "quick" else 24):
         one_scenario(run, run.seed, 1000 + i, mods, use_script=True)
+    # run-level statistics: the bulk of the grains must be recovered much better than the per-grain caps
+    te = np.array(run.extra.pop("_terr", [0.0]))
+    ue = np.array(run.extra.pop("_uerr", [0.0]))
+    oe = np.array(run.extra.pop("_oexc", [0.0]))
+    pct = lambda a: {"median": float(np.median(a)), "p90": float(np.percentile(a, 90)), "max": float(a.max())}
+    run.extra["translation_err_um"] = pct(te)
+    run.extra["ubi_rel_err"] = pct(ue)
+    run.extra["objective_excess"] = pct(oe)
+    if len(te) >= 20 and (np.median(te) > 0.75 or np.percentile(te, 90) > 2.0):
+        run.violation("recovered:translation-statistics",
+                      "translation errors over %d grains: median %.3g um, 90th percentile %.3g um (limits 0.75 / 2; unchanged tree: 0.15 / 0.3)"
+                      % (len(te), np.median(te), np.percentile(te, 90)), dict(stats=pct(te)))
+    if len(ue) >= 20 and (np.median(ue) > 1e-6 or np.percentile(ue, 90) > 3e-6):
+        run.violation("recovered:ubi-statistics",
+                      "UBI relative errors over %d grains: median %.3g, 90th percentile %.3g (limits 1e-6 / 3e-6; unchanged tree: 1.5e-7 / 5e-7)"
+                      % (len(ue), np.median(ue), np.percentile(ue, 90)), dict(stats=pct(ue)))
     run.require_counter("grains_judged", 20)
     run.require_counter("peaks_checked", 1000)
     run.require_counter("makemap_script_runs", 1)
